@@ -194,6 +194,8 @@ def main():
         kw['only'] = [n for n in c['base'] + c['own'] if n in all_vc]
         kw['specs'] = [m for m in c['specs'] if os.path.exists(os.path.join(spec_dir, m + '.rs'))]
         engine.ACTIVE_CFGS = engine.CFGS + c.get('cfgs_extra', [])
+        if c.get('rlimit'):
+            cfg = dict(cfg, rlimit=max(cfg.get('rlimit', 30), c['rlimit']))
         if c.get('witness'):
             os.environ['VERIF_WITNESS_FLAVOUR'] = c['witness']   # replay/run_witness.py: flavour of the witness binary
     annotate.DEGRADE = {}
@@ -325,7 +327,12 @@ def clause_props(scratch, unit, err):
     if is_safety:
         # a reachable panic: breaks totality (C04) and every "for every input the result is ..." property of the unit, but
         # not the pure frame / provenance properties
-        keep = [p for p in allp if p not in ('C11', 'C16', 'C17', 'C18')]
+        drop = ('C11', 'C16', 'C17', 'C18')
+        if os.environ.get('VERIF_CONFIG', 'default') != 'default':
+            # units of another build configuration carry the same contracts as their default twins: a panic that is
+            # reachable only there IS a difference between configurations (C18)
+            drop = ('C11', 'C16', 'C17')
+        keep = [p for p in allp if p not in drop]
         return keep or allp
     if 'postcondition' not in msg and 'invariant' not in msg:
         # a failed proof step (assert / lemma precondition inside a proof block): it speaks for the clauses it supports;
